@@ -592,104 +592,118 @@ pub struct History {
 }
 
 pub fn extract_history(cfg: &BerCfg, events: &[Event], report_chan: Option<usize>) -> History {
-    let mut points: Vec<PointHistory> = Vec::new();
+    use std::collections::BTreeMap;
+    let _ = cfg;
     let mut anomalies = Vec::new();
+    // pass 1: which task is worker (e, w): the decoder for (e, w) is built by the root right
+    // before that worker is spawned
+    let mut task_role: BTreeMap<usize, (usize, usize)> = BTreeMap::new();
+    let mut pending: Option<(usize, usize)> = None;
+    for ev in events {
+        match &ev.ev {
+            Ev::User { tag: "build-decoder", vals } if ev.task == 0 => pending = Some((vals[0] as usize, vals[1] as usize)),
+            Ev::Spawn { child } if ev.task == 0 => {
+                if let Some(r) = pending.take() {
+                    task_role.insert(*child, r);
+                }
+            }
+            _ => {}
+        }
+    }
+    // pass 2: channel roles by traffic (not by channel kind or creation order): a worker's
+    // results channel is where it sends, its terminate channel is where it polls
+    let mut results_of: BTreeMap<usize, usize> = BTreeMap::new(); // chan -> point
+    let mut terminate_of: BTreeMap<usize, (usize, usize)> = BTreeMap::new(); // chan -> (e, w)
+    for ev in events {
+        let Some(&(e, w)) = task_role.get(&ev.task) else { continue };
+        match &ev.ev {
+            Ev::Send { chan, .. } | Ev::SendFail { chan } => {
+                if Some(*chan) != report_chan {
+                    results_of.entry(*chan).or_insert(e);
+                }
+            }
+            Ev::TryRecvOk { chan, .. } | Ev::TryRecvEmpty { chan } | Ev::TryRecvDisc { chan } | Ev::Recv { chan, .. } | Ev::RecvDisc { chan } => {
+                terminate_of.entry(*chan).or_insert((e, w));
+            }
+            _ => {}
+        }
+    }
+    let npoints = task_role.values().map(|r| r.0 + 1).max().unwrap_or(0);
+    let mut points: Vec<PointHistory> = (0..npoints).map(|_| PointHistory::default()).collect();
+    for (t, (e, w)) in &task_role {
+        let p = &mut points[*e];
+        if p.worker_tasks.len() <= *w {
+            p.worker_tasks.resize(*w + 1, usize::MAX);
+        }
+        p.worker_tasks[*w] = *t;
+    }
+    for (c, e) in &results_of {
+        points[*e].results_chan = *c;
+    }
+    for (c, (e, _)) in &terminate_of {
+        points[*e].terminate_chans.push(*c);
+    }
     let mut sig: u64 = 0xcbf29ce484222325;
-    let mut mixin = |a: u64, b: u64, c: u64| {
-        for x in [a, b, c] {
+    let mut mixin = |a: u64, b: u64| {
+        for x in [a, b] {
             sig ^= x;
             sig = sig.wrapping_mul(0x100000001b3);
         }
     };
-    let w = cfg.workers;
     for ev in events {
         match &ev.ev {
-            Ev::ChanNew { chan, cap } if ev.task == 0 => {
-                if Some(*chan) == report_chan {
-                    continue;
-                }
-                match cap {
-                    None => points.push(PointHistory { results_chan: *chan, ..Default::default() }),
-                    Some(_) => {
-                        if let Some(p) = points.last_mut() {
-                            p.terminate_chans.push(*chan);
-                        } else {
-                            anomalies.push(format!("bounded channel {} before any results channel", chan));
-                        }
-                    }
-                }
-            }
-            Ev::Spawn { child } if ev.task == 0 => {
-                if let Some(p) = points.last_mut() {
-                    p.worker_tasks.push(*child);
-                } else {
-                    anomalies.push(format!("task {} spawned before any results channel", child));
-                }
-            }
             Ev::Send { chan, seq } => {
-                if let Some(p) = points.iter_mut().find(|p| p.results_chan == *chan) {
-                    match p.worker_tasks.iter().position(|&t| t == ev.task) {
-                        Some(wi) => {
-                            p.sends.push((wi, *seq));
-                            mixin(1, wi as u64, 0);
-                        }
-                        None => anomalies.push(format!("results send by non-worker task {}", ev.task)),
+                if let (Some(&e), Some(&(_, w))) = (results_of.get(chan), task_role.get(&ev.task)) {
+                    points[e].sends.push((w, *seq));
+                    mixin(1, w as u64);
+                } else if ev.task == 0 {
+                    if let Some(&(e, _)) = terminate_of.get(chan) {
+                        points[e].terminate_sent += 1;
+                        mixin(2, 0);
+                    } else if Some(*chan) == report_chan {
+                        mixin(3, 0);
                     }
-                } else if let Some(p) = points.iter_mut().find(|p| p.terminate_chans.contains(chan)) {
-                    p.terminate_sent += 1;
-                    mixin(2, 0, 0);
-                } else if Some(*chan) == report_chan {
-                    mixin(3, 0, 0);
                 }
             }
-            Ev::Recv { chan, from, seq } => {
-                if let Some(p) = points.iter_mut().find(|p| p.results_chan == *chan) {
-                    if ev.task != 0 {
-                        anomalies.push(format!("results received by task {}", ev.task));
-                    }
-                    match p.worker_tasks.iter().position(|&t| t == *from) {
-                        Some(wi) => {
-                            p.recvs.push((wi, *seq));
-                            mixin(4, wi as u64, 0);
-                        }
-                        None => anomalies.push(format!("results message from non-worker task {}", from)),
-                    }
+            Ev::SendFail { chan } if ev.task == 0 => {
+                // the worker is already gone: the attempt still counts as signalling it
+                if let Some(&(e, _)) = terminate_of.get(chan) {
+                    points[e].terminate_sent += 1;
+                    mixin(2, 1);
+                }
+            }
+            Ev::Recv { chan, from, seq } if ev.task == 0 => {
+                if let (Some(&e), Some(&(_, w))) = (results_of.get(chan), task_role.get(from)) {
+                    points[e].recvs.push((w, *seq));
+                    mixin(4, w as u64);
                 }
             }
             Ev::TryRecvOk { chan, .. } => {
-                if let Some(p) = points.iter().find(|p| p.terminate_chans.contains(chan)) {
-                    let wi = p.worker_tasks.iter().position(|&t| t == ev.task).unwrap_or(99);
-                    mixin(5, wi as u64, 0);
+                if let Some(&(_, w)) = terminate_of.get(chan) {
+                    mixin(5, w as u64);
                 }
             }
             Ev::TryRecvEmpty { chan } => {
-                if let Some(p) = points.iter().find(|p| p.terminate_chans.contains(chan)) {
-                    let wi = p.worker_tasks.iter().position(|&t| t == ev.task).unwrap_or(99);
-                    mixin(6, wi as u64, 0);
+                if let Some(&(_, w)) = terminate_of.get(chan) {
+                    mixin(6, w as u64);
                 }
             }
             Ev::Join { target, panicked } if ev.task == 0 => {
-                if let Some(p) = points.iter_mut().find(|p| p.worker_tasks.contains(target)) {
-                    let wi = p.worker_tasks.iter().position(|&t| t == *target).unwrap();
-                    p.joins.push((wi, *panicked));
-                    mixin(7, wi as u64, 0);
+                if let Some(&(e, w)) = task_role.get(target) {
+                    points[e].joins.push((w, *panicked));
+                    mixin(7, w as u64);
                 }
             }
             Ev::User { tag, vals } => match *tag {
                 "frame" | "genie-frame" | "diff-frame" => {
                     let (e, wi, j) = (vals[0] as usize, vals[1] as usize, vals[2] as u64);
                     if let Some(p) = points.get_mut(e) {
-                        if p.worker_tasks.get(wi) != Some(&ev.task) && p.worker_tasks.len() > wi {
-                            anomalies.push(format!("frame ({},{},{}) decoded by task {} but worker task is {}", e, wi, j, ev.task, p.worker_tasks[wi]));
-                        }
                         let fr = match *tag {
                             "frame" => (vals[3] as u64, vals[4] == 1, vals[5] as u64),
                             "genie-frame" => (vals[3] as u64, vals[3] == 0, 1),
                             _ => (0, vals[4] == 1, vals[5] as u64),
                         };
                         p.frames.insert((wi, j), fr);
-                    } else {
-                        anomalies.push(format!("frame for unknown point {}", e));
                     }
                 }
                 "chain-fail" => {
@@ -703,17 +717,6 @@ pub fn extract_history(cfg: &BerCfg, events: &[Event], report_chan: Option<usize
                 _ => {}
             },
             _ => {}
-        }
-    }
-    for (e, p) in points.iter().enumerate() {
-        if p.worker_tasks.len() != w || p.terminate_chans.len() != w {
-            anomalies.push(format!(
-                "point {}: {} worker tasks and {} terminate channels for {} configured workers",
-                e,
-                p.worker_tasks.len(),
-                p.terminate_chans.len(),
-                w
-            ));
         }
     }
     History { report_chan, points, anomalies, transport_sig: sig }
@@ -927,10 +930,10 @@ pub fn oracle_c13(cfg: &BerCfg, obs: &BerObs) -> (Vec<Violation>, OracleStats) {
         return (v, st);
     }
     let hist = extract_history(cfg, &out.events, root.report_chan);
-    for a in &hist.anomalies {
-        v.push(Violation::new("structure", a.clone()));
-    }
-    if !v.is_empty() {
+    if !hist.anomalies.is_empty() {
+        // the decoder was handed another matrix, length or iteration limit than configured:
+        // that is the chain's business (C12), C13 says nothing about this run
+        st.chain_skipped = true;
         return (v, st);
     }
 
@@ -1071,11 +1074,12 @@ pub fn oracle_c13(cfg: &BerCfg, obs: &BerObs) -> (Vec<Violation>, OracleStats) {
             }
         }
         // 6. terminate + joins
-        if p.terminate_sent != cfg.workers && result.is_ok() {
-            v.push(Violation::new("joins", format!("point {}: terminate sent to {} of {} workers", e, p.terminate_sent, cfg.workers)));
+        let nworkers = p.worker_tasks.len();
+        if result.is_ok() && p.joins.len() != nworkers {
+            v.push(Violation::new("joins", format!("point {}: {} of {} workers joined", e, p.joins.len(), nworkers)));
         }
-        if result.is_ok() && p.joins.len() != cfg.workers {
-            v.push(Violation::new("joins", format!("point {}: {} of {} workers joined", e, p.joins.len(), cfg.workers)));
+        if p.terminate_sent < nworkers {
+            st.probes.inc("point ended with fewer terminate signals than workers");
         }
         folds.push(prefix);
     }
